@@ -22,7 +22,7 @@ POOL = [1, 4, 5, 6, 7]
 
 def case_strategy():
     from hypothesis import strategies as st
-    kd = st.tuples(st.sampled_from(['signing', 'signing', 'encryption', None]), st.sampled_from(POOL + ['keyname', 'damaged'])).map(list)
+    kd = st.tuples(st.sampled_from(['signing', 'signing', 'encryption', None]), st.sampled_from(POOL + ['keyname', 'damaged', 'expired'])).map(list)
     fed = st.one_of(st.lists(st.lists(kd, max_size=3), min_size=2, max_size=4), st.lists(st.lists(kd, max_size=3), min_size=2, max_size=4), st.just([]))   # [] = no metadata source at all
     msg = st.fixed_dictionaries({'issuer': st.integers(0, 4), 'key': st.sampled_from(POOL), 'keyinfo': st.sampled_from(['none', 'signer-cert', 'other-cert', 'signer-rsa', 'other-rsa', 'signer-cert']),
                                  'other': st.sampled_from(POOL), 'level': st.sampled_from(['response', 'assertion', 'both']), 'alg': st.sampled_from(['sha1', 'sha256']),
@@ -135,11 +135,13 @@ _idps = {}
 
 def request_strategy():
     from hypothesis import strategies as st
-    kd = st.tuples(st.sampled_from(['signing', 'signing', 'encryption', None]), st.sampled_from(POOL + ['keyname', 'damaged'])).map(list)
+    kd = st.tuples(st.sampled_from(['signing', 'signing', 'encryption', None]), st.sampled_from(POOL + ['keyname', 'damaged', 'expired'])).map(list)
     fed = st.lists(st.lists(kd, max_size=3), min_size=2, max_size=3)
     msg = st.fixed_dictionaries({'issuer': st.integers(0, 3), 'key': st.sampled_from(POOL), 'keyinfo': st.sampled_from(['none', 'signer-cert', 'other-cert', 'signer-rsa']),
                                  'other': st.sampled_from(POOL), 'typ': st.sampled_from(['authn', 'logout']), 'alg': st.sampled_from(['sha1', 'sha256'])})
-    return st.fixed_dictionaries({'fed': fed, 'only_md': st.booleans(), 'want_signed': st.booleans(), 'messages': st.lists(msg, min_size=3, max_size=8)})
+    return st.fixed_dictionaries({'fed': fed, 'only_md': st.booleans(), 'want_signed': st.booleans(), 'messages': st.lists(msg, min_size=3, max_size=8),
+                                  # the rarely used receiver option want_authn_requests_only_with_valid_cert
+                                  'only_valid_cert': st.sampled_from([False, False, True])})
 
 
 def run_requests(case):
@@ -147,11 +149,11 @@ def run_requests(case):
     now = spside.NOW
     fed = case['fed']
     world.install_inprocess_tool()
-    key = repr((fed, case['only_md'], case['want_signed']))
+    key = repr((fed, case['only_md'], case['want_signed'], case.get('only_valid_cert')))
     if key not in _idps:
         ents = [{'entityid': SPS[i], 'sp': {'keys': [(u, k) for u, k in kds], 'acs': [(world.POST, SPS[i] + '/acs', 0, True)], 'slo': [(world.REDIRECT, SPS[i] + '/slo')]}} for i, kds in enumerate(fed)]
         _idps.clear()
-        _idps[key] = world.make_idp(world.idp_conf(dict(world.DEFAULT_IDP, want_authn_requests_signed=case['want_signed'], only_use_keys_in_metadata=case['only_md'],
+        _idps[key] = world.make_idp(world.idp_conf(dict(world.DEFAULT_IDP, want_authn_requests_signed=case['want_signed'], only_use_keys_in_metadata=case['only_md'], want_authn_requests_only_with_valid_cert=bool(case.get('only_valid_cert')),
                                                         sso=[('https://idp.verif.example/sso/post', world.POST)], slo=[('https://idp.verif.example/slo/post', world.POST)]),
                                                    [build.entities_xml(ents)]))
         clock.install()
